@@ -176,3 +176,18 @@ Definition text_ok_b (ix : indexer) (h : hay) : bool :=
                     (text_pos_ok ix h true q && text_pos_ok ix h false q &&
                      match ix_next_right_pos ix h q with Ok (Some q') => is_bnd h q' | _ => true end))
           (seq 0 (S (length h))).
+
+(* a node without byte-level leaves, backreferences or string sets: what the parser produces for a pattern without
+   backreferences and \q{...}; for such nodes the optimizer theorems need no hypothesis on the node besides qok *)
+Fixpoint simple (n : node) : bool :=
+  match n with
+  | NCat l => forallb simple l
+  | NAlt a b => simple a && simple b
+  | NCaptureGroup _ c _ => simple c
+  | NLookaround _ _ _ _ c => simple c
+  | NLoop b _ _ _ _ _ => simple b
+  | NLoop1CharBody b _ _ _ => simple b
+  | NByteSequence _ | NByteSet _ | NBackRef _ _ | NStringSet _ _ => false
+  | _ => true
+  end.
+
